@@ -9,6 +9,7 @@ import ApolloModel.Proofs.ParserExactT13
 import ApolloModel.Proofs.ParserExactS16
 import ApolloModel.Proofs.ParserExactC29
 import ApolloModel.Proofs.ParserExactS17
+import ApolloModel.Proofs.ParserExactS18
 import ApolloModel.Proofs.ParserExactT15
 import ApolloModel.Proofs.ParserDef19
 import ApolloModel.Proofs.ParserTermination8
@@ -1251,6 +1252,50 @@ theorem schema_extension_accept_sound_exact_xx (n : Nat) (s s' : PState) (w : TW
       Parse.Exact.looseFitXX (Parse.Exact.bud s) l ∧ Settled s' ∧
       (Parse.Exact.openBody l → ∀ t, s'.current = some t → t.kind ≠ .lCurly) :=
   Parse.Exact.schemaExt_soundXX n s s' w he hq hs hr hnd
+
+/-! ### growth 15: `document_accept_iff` — the exact characterisation of the accepted language -/
+
+/-- the exact item guard: `itemFit` (within the recursion budget, `Const` positions, enum values, names ≠ `on`, directive locations,
+    non-empty braces, extensions with a component) where, for a schema definition / extension, only the LAST root operation type may
+    lack its named type (builderD's `looseFitXX`; the recorded finding is a liberty of the accepted language, like a leading `&` / `|`) -/
+abbrev ExactItemGuard (rl : Nat) (i : DocItem) : Prop := Parse.Exact.itemFitXX rl i
+
+/-- **document_accept_iff.**  `Parser::parse` (model; no token limit, any recursion limit `rl`) reports ZERO errors IF AND ONLY IF the
+    source lexes cleanly and its significant tokens are, followed by EOF, `docToks its` for a non-empty list `its` of `DocItem`s —
+    operation / fragment definitions in long or shorthand form, type-system definitions / extensions with the two liberties — every
+    item satisfying the exact guard `Parse.Exact.itemFitXX rl` and the list satisfying the exact follow condition
+    `Parse.Exact.DocFollowX` (a definition without its braces body is not followed by `{`).  No guard on the source
+    (`executable_document_accept_iff`'s `ExecutableOnly` is superseded). -/
+theorem document_accept_iff (rl : Nat) (src : Parse.Str) :
+    (parse .document none rl src).errors = [] ↔
+      LexClean src ∧ ∃ (ts : List Tok) (its : List DocItem) (e : Tok), sig (srcToks src) = ts ++ [e] ∧ e.kind = .eof ∧
+        ts.map astOfV = (docToks its).map some ∧ its ≠ [] ∧ (∀ i ∈ its, Parse.Exact.itemFitXX rl i) ∧ Parse.Exact.DocFollowX its :=
+  Parse.Exact.document_iff rl src
+
+/-- the exact guard lies between the strict guard of `document_accept_complete` and the sound-side guard of growth 12 -/
+theorem exact_item_guard_between (rl : Nat) (i : DocItem) :
+    (Parse.Exact.itemFit rl i → Parse.Exact.itemFitXX rl i) ∧ (Parse.Exact.itemFitXX rl i → Parse.Exact.itemFitX rl i) :=
+  ⟨Parse.Exact.itemFitXX_of_fit rl i, Parse.Exact.itemFitX_of_XX rl i⟩
+
+/-- **accepted ⇒ a document of the strict grammar, or a named liberty is used.**  With zero errors, EITHER `strictItems its = some items`:
+    the significant tokens are the printer's tokens `itemsToks items` of a strict-grammar document and every item satisfies the strict
+    guard `itemFit rl`; OR `strictItems its = none`: some item has a leading `&` / `|` or a root operation type without its named type. -/
+theorem document_accepted_strict_or_liberty (rl : Nat) (src : Parse.Str) (herr : (parse .document none rl src).errors = []) :
+    LexClean src ∧ ∃ (ts : List Tok) (its : List DocItem) (e : Tok), sig (srcToks src) = ts ++ [e] ∧ e.kind = .eof ∧
+      ts.map astOfV = (docToks its).map some ∧ its ≠ [] ∧ (∀ i ∈ its, Parse.Exact.itemFitXX rl i) ∧ Parse.Exact.DocFollowX its ∧
+      ((∃ items, strictItems its = some items ∧ docToks its = Ast.itemsToks items ∧ ∀ i ∈ its, Parse.Exact.itemFit rl i) ∨
+        strictItems its = none) :=
+  Parse.Exact.document_accepted_strict_or_liberty rl src herr
+
+/-- **strict-grammar documents within the budget ⇒ accepted**: items that use no liberty (`strictItems its = some items`), satisfy the
+    strict guard and the exact follow condition parse with zero errors; their tokens are the printer's tokens of `items` -/
+theorem strict_document_accept_complete_exact (rl : Nat) (src : Parse.Str) (its : List DocItem) (items : List Ast.Item)
+    (ts : List Tok) (e : Tok) (hstrict : strictItems its = some items)
+    (hclean : LexClean src) (hsig : sig (srcToks src) = ts ++ [e]) (he : e.kind = .eof)
+    (hx : ts.map astOfV = (Ast.itemsToks items).map some) (hne : its ≠ []) (hfit : ∀ i ∈ its, Parse.Exact.itemFit rl i)
+    (hfol : Parse.Exact.DocFollowX its) : (parse .document none rl src).errors = [] :=
+  Parse.Exact.parseDocument_complete_itemsX rl src its ts e hclean hsig he
+    (by rw [(Parse.strictItems_toks its items hstrict).1]; exact hx) hne hfit hfol
 
 end Executable
 
